@@ -428,6 +428,11 @@ struct StringStream {
         constexpr SizeT size = sizeof(Char_T);
         Char_T         *str  = Storage();
 
+#ifdef QENTEM_VERIF_SIM
+        if (qentem_verif_exact_fit() != 0) {
+            allocate(new_capacity);
+        } else
+#endif
         allocate(new_capacity * SizeT{4});
 
         Memory::Copy(Storage(), str, (Length() * size));
@@ -435,6 +440,9 @@ struct StringStream {
     }
 
     void allocate(SizeT size) {
+#ifdef QENTEM_VERIF_SIM
+        if (qentem_verif_exact_fit() == 0)
+#endif
         size = Memory::AlignSize(size);
 
         setStorage(Memory::Allocate<Char_T>(size));
